@@ -577,9 +577,11 @@ package ast
 //@     invariant count2: $i == 1 ==> (isNull(types[0]) && !isNull(types[1]) ==> len(results) == 1 && results[0] == types[1]) && (!isNull(types[0]) && isNull(types[1]) ==> len(results) == 1 && results[0] == types[0])
 //
 //@ func StructType.FieldByName
-//@   property C15
+//@   property C15 C17
+//@   traced
 //@   modifies nothing
 //@   ensures  found: result.1 == (exists i: int :: 0 <= i && i < len(structType.Fields) && structType.Fields[i].Name == name)
+//@   ensures  named: result.1 ==> result.0.Name == name
 //@   loop 0:
 //@     invariant none: forall i: int :: 0 <= i && i <= $i ==> structType.Fields[i].Name != name
 //
@@ -599,3 +601,12 @@ package ast
 //@   modifies nothing
 //@   ensures  fresh: base(result) == 0 || fresh(result)
 //@   ensures  concat: pathConcat(path, suffix, result)
+//
+// MakePath (C17: "every assignment path ... names an existing chain of fields ... with matching types"):
+// every item appended to the path is the field the exact-name lookup just found - its identifier is that
+// field's NAME (not merely the text of the path as written) and its type that field's type.
+//@ func (*Builder).MakePath
+//@   property C17
+//@   loop 0:
+//@     invariant len: len(path) == $i + 1 && (base(path) == 0 || fresh(path))
+//@     invariant item: $i >= 0 ==> path[$i].Identifier == lastres("ast.StructType.FieldByName", 0).Name && path[$i].Type == lastres("ast.StructType.FieldByName", 0).Type
